@@ -371,3 +371,31 @@ def zone_field_roles(payload: bytes, pool):
     else:
         raise Bad("zone type")
     return roles
+
+
+# ------------------------------------------------------------------------------------------ structure of the pool / id-map fields
+
+def pool_entries(payload: bytes):
+    """[(offset of the string's first byte, byte length)] for every string of a STRING_POOL field payload"""
+    d = Dec(payload)
+    out = []
+    for _ in range(d.count()):
+        n = d.count()
+        if d.p + n > len(payload):
+            raise Bad("string runs past the end")
+        out.append((d.p, n))
+        d.p += n
+    return out
+
+
+def idmap_entries(payload: bytes):
+    """[(key offset, key varint length, key pool index, value offset, value varint length, value pool index)] of a TZDB_ID_MAP payload"""
+    d = Dec(payload)
+    out = []
+    for _ in range(d.count()):
+        a = d.p
+        k = d.count()
+        b = d.p
+        v = d.count()
+        out.append((a, b - a, k, b, d.p - b, v))
+    return out
